@@ -13,7 +13,7 @@ theorem step2_following_nonsib (wf : WF d) (n : Nat) (hin : StepIH d cfg dec n) 
     (inp : PQ2) (hp : PSz d n inp) (it : Option (Ref × Option PQ)) (pos : Nat) (c : Ref)
     (hi : (PQ2.following a false inp it pos).Inv d) (hg : Good d c) :
     Step2 d cfg dec (.following a false inp it pos) c :=
-  step2_following_gen d cfg dec n hin a false (fun x c hgx hgc => fol_start d cfg wf a x c hgx hgc)
+  step2_following_gen d cfg dec n hin a false (fun x c hgx _ => fol_start d cfg wf a x c hgx)
     (fun k p c hk hgc => fol_body d cfg wf a k p c hk hgc) inp hp it pos c hi hg
 
 /-- `precedingQuery{Sibling: false}` -/
